@@ -26,8 +26,8 @@ type litInfo struct {
 }
 
 type traceState struct {
-	n                             Term
-	kind, fn, arg, obj, err, recv Term
+	n                                  Term
+	kind, fn, arg, obj, err, recv, res Term
 }
 
 func (u *Unit) newTrace(hint string) *traceState {
@@ -39,6 +39,7 @@ func (u *Unit) newTrace(hint string) *traceState {
 		obj:  u.D.Fresh(hint+"_obj", ArrS(SInt, SRef)),
 		err:  u.D.Fresh(hint+"_err", ArrS(SInt, SErr)),
 		recv: u.D.Fresh(hint+"_recv", ArrS(SInt, SVal)),
+		res:  u.D.Fresh(hint+"_res", ArrS(SInt, SVal)),
 	}
 	return t
 }
@@ -56,8 +57,15 @@ func (u *Unit) trace(env *Env) *traceState {
 }
 
 func (u *Unit) emit(env *Env, kind int, fn Term, arg Term, obj Term, errv Term) {
+	u.emitRes(env, kind, fn, arg, obj, errv, Term{})
+}
+
+func (u *Unit) emitRes(env *Env, kind int, fn Term, arg Term, obj Term, errv Term, res Term) {
 	t := u.trace(env)
-	nt := &traceState{n: add(t.n, IntLit(1)), kind: Store(t.kind, t.n, IntLit(int64(kind))), fn: t.fn, arg: t.arg, obj: t.obj, err: t.err, recv: t.recv}
+	nt := &traceState{n: add(t.n, IntLit(1)), kind: Store(t.kind, t.n, IntLit(int64(kind))), fn: t.fn, arg: t.arg, obj: t.obj, err: t.err, recv: t.recv, res: t.res}
+	if res.S != "" {
+		nt.res = u.define(env, "trs", Store(t.res, t.n, res))
+	}
 	if obj.S != "" && obj.Sort == SVal {
 		nt.recv = u.define(env, "trr", Store(t.recv, t.n, obj))
 		obj = Term{}
@@ -85,7 +93,7 @@ func (u *Unit) emit(env *Env, kind int, fn Term, arg Term, obj Term, errv Term) 
 
 func (u *Unit) traceName(env *Env, name string) (Value, bool) {
 	switch name {
-	case "tr_len", "tr_kind", "tr_fn", "tr_arg", "tr_obj", "tr_err", "tr_recv":
+	case "tr_len", "tr_kind", "tr_fn", "tr_arg", "tr_obj", "tr_err", "tr_recv", "tr_res":
 	default:
 		return Value{}, false
 	}
@@ -103,6 +111,8 @@ func (u *Unit) traceName(env *Env, name string) (Value, bool) {
 		return Value{t.obj, nil}, true
 	case "tr_recv":
 		return Value{t.recv, nil}, true
+	case "tr_res":
+		return Value{t.res, nil}, true
 	}
 	return Value{t.err, nil}, true
 }
@@ -115,7 +125,7 @@ func (u *Unit) havocTrace(env *Env) {
 	// events before the call are history: they do not change
 	i := u.D.Bound("i", SInt)
 	rng := And(le(IntLit(0), i), lt(i, old.n))
-	env.assume(Forall([]Term{i}, Imp(rng, And(Same(Select(nt.kind, i), Select(old.kind, i)), Same(Select(nt.fn, i), Select(old.fn, i)), Same(Select(nt.arg, i), Select(old.arg, i)), Same(Select(nt.obj, i), Select(old.obj, i)), Same(Select(nt.err, i), Select(old.err, i)), Same(Select(nt.recv, i), Select(old.recv, i))))))
+	env.assume(Forall([]Term{i}, Imp(rng, And(Same(Select(nt.kind, i), Select(old.kind, i)), Same(Select(nt.fn, i), Select(old.fn, i)), Same(Select(nt.arg, i), Select(old.arg, i)), Same(Select(nt.obj, i), Select(old.obj, i)), Same(Select(nt.err, i), Select(old.err, i)), Same(Select(nt.recv, i), Select(old.recv, i)), Same(Select(nt.res, i), Select(old.res, i))))))
 	env.tr = nt
 }
 
@@ -144,8 +154,27 @@ func (u *Unit) applyEffectful(env *Env, fn Term, sig *types.Signature, args []Va
 		}
 		vals = append(vals, Value{v, rt})
 	}
-	u.emit(env, 1, fn, arg, Term{}, errv)
+	res0 := Term{}
+	if len(vals) > 0 {
+		res0 = vals[0].Term
+		if vals[0].Sort != SVal {
+			res0 = u.box(vals[0]).Term
+		}
+	}
+	u.emitRes(env, 1, fn, arg, Term{}, errv, res0)
 	u.callbackHavoc(env)
+	// "opt callback-result-inv=<Macro>": what the unit assumes about pointer results of user callbacks (part of its contract
+	// with the user: e.g. the function given to FlatMap returns a usable MonadIO)
+	if u.Block != nil && u.Block.Opts["callback-result-inv"] != "" && len(vals) > 0 && vals[0].Sort == SRef {
+		sc := *u.ownCtx
+		sc.bound = map[string]Value{"cbresult": vals[0]}
+		save := u.inSpec
+		u.inSpec = true
+		t := u.sv(u.parseSpec(Clause{Text: u.Block.Opts["callback-result-inv"] + "(cbresult)"}), env, &sc)
+		u.inSpec = save
+		env.assume(t.Term)
+		u.assumeUsed("user callbacks return values satisfying " + u.Block.Opts["callback-result-inv"])
+	}
 	u.assumeUsed("user callbacks act on library objects only through exported methods; what they may change is the rely condition stated per property")
 	return ret(env, vals...)
 }
@@ -163,7 +192,7 @@ func (u *Unit) callbackHavoc(env *Env) {
 // a literal whose creation the verifier has seen: by contract if it has one, else inlined in the current state
 // (captured variables are shared with the enclosing activation, as in Go)
 func (u *Unit) applyKnownLit(env *Env, li *litInfo, fn Term, sig *types.Signature, args []Value, at ast.Node) []Outcome {
-	if li.blk != nil {
+	if li.blk != nil && !(u.Block != nil && u.Block.Opts["lit-calls"] == "inline") {
 		return u.applyLitByContract(env, li, fn, sig, args, at)
 	}
 	if u.litDepth > 4 {
@@ -281,7 +310,7 @@ func (u *Unit) execGo(st *ast.GoStmt, env *Env) []Outcome {
 func (u *Unit) execSend(st *ast.SendStmt, env *Env) []Outcome {
 	ch := u.eval(st.Chan, env)
 	v := u.eval(st.Value, env)
-	u.safety(env, "nil", st.Pos(), "send on nil channel "+u.exprText(st.Chan), Not(Same(ch.Term, Term{"nil_Ref", SRef})))
+	// (a send on a nil channel blocks forever; it does not panic, so it is not a safety obligation)
 	u.sendCheck(env, ch.Term, st)
 	arg := v.Term
 	if v.Sort != SVal {
@@ -303,14 +332,87 @@ func (u *Unit) execSelect(st *ast.SelectStmt, env *Env) []Outcome {
 	return nil
 }
 
+// for v := range ch: iteration k receives the k-th value rx[k] (a ghost sequence, arbitrary); the loop may end after any
+// number of iterations (the channel was closed). In invariants: _i = number of values received so far, _rx = that sequence.
 func (u *Unit) execRangeChan(st *ast.RangeStmt, env *Env, label string, x Value, xt *types.Chan, blk *Block, lname string) []Outcome {
-	unsup("range over channel at %s", u.pos(st.Pos()))
-	return nil
+	es := u.sortOf(xt.Elem())
+	rx := u.D.Fresh("rx", ArrS(SInt, es))
+	kobj := u.keyObj(st.Key) // the value variable of a channel range is the "key"
+	env.alias["_i"] = IntLit(0)
+	env.alias["_rx"] = rx
+	u.runGhostKind(env, blk, "ghostbefore")
+	u.checkInvariants(env, blk, "inv-init", st.Pos(), lname)
+	li := u.scanLoop(st.Body)
+	li.modVars = append(li.modVars, u.ghostsSetIn(st)...)
+	u.inRangeChan = true
+	u.havocLoop(env, li)
+	u.inRangeChan = false
+	if u.effectfulCallbacks() {
+		u.havocTraceLoop(env)
+	}
+	k := u.D.Fresh("k", SInt)
+	env.assume(le(IntLit(0), k))
+	env.alias["_i"] = k
+	cut := len(env.pc)
+	u.assumeInvariants(env, blk)
+	var res []Outcome
+	ex := env.clone()
+	u.exitSummary(ex, blk, cut, lname, st.Pos())
+	delete(ex.alias, "_i")
+	res = append(res, Outcome{env: ex, kind: oNext})
+	be := env
+	delete(be.alias, "_i")
+	v := u.define(be, "recv", Select(rx, k))
+	if v.Sort == SFn && u.Block != nil && u.Block.Opts["recv-nonnil"] != "" {
+		be.assume(Not(Same(v, Term{"nil_Fn", SFn})))
+		u.assumeUsed("function values received from the mailbox are non-nil (nobody posts nil)")
+	}
+	if kobj != nil {
+		be.vars[kobj] = v
+		u.knownRefsOf(be, v)
+	}
+	if blk != nil {
+		u.coverProbe(be, lname+"/cover/body-reachable", st.Pos(), "loop body reachable under the invariants")
+	}
+	for _, o := range u.execBlock(st.Body.List, be) {
+		switch {
+		case o.kind == oNext || (o.kind == oContinue && (o.label == "" || o.label == label)):
+			e := o.env
+			e.alias["_i"] = k
+			u.runGhostSets(e, blk)
+			e.alias["_i"] = add(k, IntLit(1))
+			u.checkInvariants(e, blk, "inv-keep", st.Pos(), lname)
+		case o.kind == oBreak && (o.label == "" || o.label == label):
+			res = append(res, Outcome{env: o.env, kind: oNext})
+		default:
+			res = append(res, o)
+		}
+	}
+	return res
 }
 
+// a loop whose body has trace effects: the trace at the loop head is arbitrary but extends the history
+func (u *Unit) havocTraceLoop(env *Env) {
+	u.havocTrace(env)
+}
+
+// <-ch : an arbitrary value (event kind 7: receive on tr_obj, value in tr_res); ok is arbitrary
 func (u *Unit) chanRecv(env *Env, ch ast.Expr, pos token.Pos) (Value, Term) {
-	unsup("channel receive at %s", u.pos(pos))
-	return Value{}, Term{}
+	c := u.eval(ch, env)
+	ct, ok := types.Unalias(c.Ty).Underlying().(*types.Chan)
+	if !ok {
+		unsup("receive from non-channel at %s", u.pos(pos))
+	}
+	v := u.D.Fresh("rcv", u.sortOf(ct.Elem()))
+	u.typeInvariant(env, v, ct.Elem())
+	u.knownRefsOf(env, v)
+	okT := u.D.Fresh("rcvok", SBool)
+	res := v
+	if v.Sort != SVal {
+		res = u.box(Value{v, ct.Elem()}).Term
+	}
+	u.emitRes(env, 7, Term{}, Term{}, c.Term, Term{}, res)
+	return Value{v, ct.Elem()}, okT
 }
 
 func (u *Unit) chanNew(env *Env, r Term) {}
